@@ -210,8 +210,8 @@ def r2(run):
                 continue
             if c.fn in USER_CODE[mod]:
                 sites.append((c, c.fn))
-            if c.fn in (C.TOKIO_SPAWN, C.TOKIO_SPAWN_BLOCKING, C.THREAD_SPAWN):
-                for x in walk(c.arg(0)):
+            if c.fn in (C.TOKIO_SPAWN, C.TOKIO_SPAWN_BLOCKING) + C.THREAD_SPAWNS:
+                for x in walk(c.arg(1) if c.fn == C.THREAD_BUILDER_SPAWN else c.arg(0)):
                     if x[0] == "agg" and x[1].get("def"):
                         tb = run.facts.body(x[1]["def"])
                         if tb is not None and any(cc.fn in USER_CODE[mod] for cc in tb.calls()):
@@ -248,6 +248,17 @@ def r3(run):
         if si["kind"] != "bool":
             continue
         cmp_ = q.comparison(si["cond"])
+        if not cmp_:
+            # `map.get(&key).is_some_and(|state| state.handler_id == handler_id)`: true edge = an entry exists and the comparison holds
+            cnd = strip(si["cond"])
+            if cnd[0] == "call" and cnd[1].fn == "core::option::Option::<T>::is_some_and" and len(cnd[2]) == 2:
+                clo = strip(cnd[2][1])
+                cb = run.facts.body(clo[1].get("def")) if clo[0] == "agg" and clo[1].get("def") else None
+                rets = cb.return_defs() if cb is not None else []
+                inner = q.comparison(rets[0][1]) if len(rets) == 1 else None
+                if inner and inner[0] == "eq":
+                    from .store_shared import subst_env
+                    cmp_ = ("eq", subst_env(run, cb, inner[1]), subst_env(run, cb, inner[2]))
         if cmp_ and cmp_[0] in ("eq", "ne"):
             a, b2 = cmp_[1], cmp_[2]
             if any(q.last_field(x) == "handler_id" for x in (a, b2)):
@@ -300,8 +311,8 @@ def r4(run):
                 ok = from_new
                 if from_cap and b is not sb:
                     # capture `store` of the spawned task = clone of the one Store in the parent
-                    for pc in q.live_calls(sb, C.TOKIO_SPAWN, C.THREAD_SPAWN):
-                        for x in walk(pc.arg(0)):
+                    for pc in q.live_calls(sb, C.TOKIO_SPAWN, *C.THREAD_SPAWNS):
+                        for x in walk(pc.arg(1) if pc.fn == C.THREAD_BUILDER_SPAWN else pc.arg(0)):
                             if x[0] == "agg" and x[1].get("def") == b.def_:
                                 for i, cap in enumerate(b.captures):
                                     if cap["name"] == "store" and i < len(x[2]):
